@@ -136,6 +136,17 @@ Example c19_or_panic_repaired :
   /\ search_cmd (t_ :: S_ "SEARCH" :: fields (S_ "OR FROM x")) (to_msgs wit_mb) = ROk [].
 Proof. exact or_panic_repaired. Qed.
 
+(** date keys disregard time and zone: the calendar date as written in the
+    Date: field (zone offsets near midnight: the UTC day differs), alone and
+    under NOT / OR, inside the fragment of c19_search_exact *)
+Example c19_sent_date_as_written :
+  map (fun m => sent_date (s_text m)) zone_mb = [Some (2024, 1, 1); Some (2024, 1, 3); Some (2024, 1, 2)]
+  /\ classify_line [KNot (KDate true COn (d2024 "2"))] zone_mb = None
+  /\ search_line [KDate true COn (d2024 "1")] zone_mb = ROk [1]
+  /\ search_line [KNot (KDate true COn (d2024 "2"))] zone_mb = ROk [1; 2]
+  /\ search_line [KOr (KDate true CBefore (d2024 "2")) (KDate true CSince (d2024 "3"))] zone_mb = ROk [1; 2].
+Proof. exact sent_date_as_written. Qed.
+
 (** non-vacuity: a program of the fragment with NOT, OR, a range, a UID set,
     a keyword, a date, a size and a string key satisfies every hypothesis of
     c19_search_cmd_exact on the witness mailbox, and selects a proper subset *)
